@@ -816,6 +816,10 @@ func (env *SpecEnv) evalCall(e *SExpr) *Value {
 			for i := 1; i < len(e.Args); i++ {
 				leaves = append(leaves, arg(i).S)
 			}
+			if bt, ok := ty.Underlying().(*types.Basic); ok && bt.Info()&types.IsString != 0 && len(leaves) == 1 {
+				// boxed("string", s): the value a string has inside an interface
+				return scalar(mkUF("box.String", SInt, leaves[0]), nil)
+			}
 			return scalar(mkUF("mkbox<"+typeName(ty)+">", SInt, leaves...), nil)
 		case "ref":
 			x := arg(0)
